@@ -159,8 +159,25 @@ def check_spec(spec: NetSpec, label, st: Stats, plan):
         judge("numpy", vlabel, val,
               lambda k: val[(k, "d")][0] - (nxt[(k, "w")][0] - val[(k, "w")][0]) / T if abs(nxt[(k, "w")][0]) != INF else INF,
               lambda k: nxt[(k, "w")][0])
+    # the same objects were first stepped with a THREE TIMES SHORTER sampling time (a longer step admits less flow per hour
+    # from the same queue: a sampling time remembered from the first step would break the bounds)
+    from ..spec import build as _build
+    for vlabel, val in vecs[:: max(1, len(vecs) // 24)]:
+        st.inc("executions", 2)
+        st.inc("transitions", 2)
+        try:
+            b_ = _build(spec)
+            np_step(spec, val, dict(P, T=T / 3.0), built=b_)
+            nxt, _, _ = np_step(spec, val, P, built=b_)
+        except Exception as e:  # noqa: BLE001
+            problems.append((f"C17/exception/{exc_site(e)}/{type(e).__name__}", f"numpy, second step with another sampling time: "
+                             f"{exc_text(e)}", {"level": "network", "spec": spec.describe(), "config": label, "P": P}))
+            break
+        judge("numpy, second step (the first had a three times shorter sampling time)", vlabel, val,
+              lambda k: val[(k, "d")][0] - (nxt[(k, "w")][0] - val[(k, "w")][0]) / T if abs(nxt[(k, "w")][0]) != INF else INF,
+              lambda k: nxt[(k, "w")][0])
     # the same network reached by editing another, already stepped one in place (stale neighbour lookups)
-    for emode in ("replace", "links", "attachments"):
+    for emode in ("replace", "links", "attachments", "params"):
         for vlabel, val in vecs[:: max(1, len(vecs) // 12)]:
             st.inc("executions", 2)
             st.inc("transitions", 4)
